@@ -139,14 +139,19 @@ def run(ctx):
             i = int(nt.inverse_mod(a, m))
             events.append({"op": "big-inverse", "a": n2l(a % m), "m": n2l(m), "out": n2l(i), "q": n2l(((a % m) * i - 1) // m)})
     # Jacobi symbol of 2^t q^2 at production size (values with long runs of trailing zero bits)
-    for m in sorted(set(big[::2] + extra_primes)):
+    # ... and for COMPOSITE odd moduli (the symbol is defined for every odd n; the supplement holds for them too): products and
+    # squares of production primes, 3 * prime, a 64-bit semiprime
+    composites = [big[0] * big[2], big[1] * big[1], 3 * big[4], 4294967311 * 4294967357, big[3] * big[5] * 7, (2 ** 127 - 1) * (2 ** 61 - 1)]
+    for m in sorted(set(big[::2] + extra_primes)) + composites:
         for t in (1, 2, 7, 8, 31, 32, 47, 48, 49, 52, 53, 54, 63, 64, 65, 100, m.bit_length() - 10):
             for q in (1, 3, 11):
                 a = (q * q) << t
-                if a >= m:
+                if a >= m or m % q == 0 and q > 1:
                     continue
                 try:
                     out, ok = int(nt.jacobi(a, m)), True
+                    if out not in (-1, 0, 1):
+                        out, ok = 0, False          # not a symbol value at all (kept out of the JSON: TLC integers are 32-bit)
                 except BaseException:  # noqa
                     out, ok = 0, False
                 events.append({"op": "big-jacobi2", "p": n2l(m), "t": t, "q": q, "out": out, "ok": ok})
